@@ -571,3 +571,101 @@ func ruleSettingsCopy(p *Prog, r *Out) {
 		r.check(copied[f] == f, "copies "+f, p.pos(fd.Pos()), "dst."+f+" = src."+f, fmt.Sprintf("Settings.CopyTo sets %s from %q: the connection's copy of the peer's SETTINGS does not carry the received %s", f, copied[f], f))
 	}
 }
+
+func init() {
+	register(&Rule{
+		Name: "frame-step-order", Props: []string{"C08", "C01", "C10"}, Engine: "AST", Floor: 6,
+		Doc: "within one iteration of the stream loop the steps run in the order the state machine needs: sample the closing flag, look the stream up, classify an unknown id, implicit close of idle streams, handleFrame, handleState, the dispatch/resume test, the closed-stream sweep, the graceful-close test; and a response's HEADERS frame is encoded and queued before any of its DATA",
+		Run: ruleFrameStepOrder,
+	})
+}
+
+func ruleFrameStepOrder(p *Prog, r *Out) {
+	fd := p.decl("(*serverConn).handleStreams")
+	if fd == nil {
+		r.undecided("handleStreams", "?", "no longer resolves")
+		return
+	}
+	r.fn("(*serverConn).handleStreams", "(*serverConn).finishRequest")
+	// the reader clause
+	var clause *ast.CommClause
+	ast.Inspect(fd.Body, func(n ast.Node) bool {
+		if cc, ok := n.(*ast.CommClause); ok && cc.Comm != nil && strings.Contains(p.text(cc.Comm), "<-sc.reader") {
+			clause = cc
+		}
+		return true
+	})
+	if clause == nil {
+		r.undecided("reader clause", p.pos(fd.Pos()), "no `case fr, ok := <-sc.reader` clause")
+		return
+	}
+	pos := map[string]token.Pos{}
+	for _, s := range clause.Body {
+		t := p.text(s)
+		switch x := s.(type) {
+		case *ast.AssignStmt:
+			if strings.HasPrefix(t, "wasClosing := isClosing()") {
+				pos["sample"] = s.Pos()
+			}
+			_ = x
+		case *ast.IfStmt:
+			ct := p.text(x.Cond)
+			switch {
+			case ct == "fr.Stream() <= sc.lastID":
+				pos["lookup"] = s.Pos()
+			case ct == "strm == nil":
+				pos["classify"] = s.Pos()
+			case ct == "fr.Type() == FrameHeaders":
+				pos["implicit"] = s.Pos()
+			case x.Init != nil && strings.Contains(p.text(x.Init), "sc.handleFrame("):
+				pos["handleFrame"] = s.Pos()
+			case strings.Contains(ct, "!strm.responded"):
+				pos["dispatch"] = s.Pos()
+			case strings.Contains(ct, "strm.State() == StreamStateClosed"):
+				pos["sweep"] = s.Pos()
+			case strings.Contains(ct, "canCloseAfterGoAway()"):
+				pos["graceful"] = s.Pos()
+			}
+		case *ast.ExprStmt:
+			if c, ok := x.X.(*ast.CallExpr); ok && p.calleeOf(c) == "handleState" {
+				pos["handleState"] = s.Pos()
+			}
+		}
+	}
+	order := []string{"sample", "lookup", "classify", "implicit", "handleFrame", "handleState", "dispatch", "sweep", "graceful"}
+	for i := 0; i+1 < len(order); i++ {
+		a, b := order[i], order[i+1]
+		pa, oka := pos[a]
+		pb, okb := pos[b]
+		r.check(oka && okb && pa < pb, "step "+a+" before "+b, p.pos(clause.Pos()), a+" < "+b,
+			fmt.Sprintf("in the stream loop's frame clause the step `%s` no longer precedes `%s` (found: %v, %v): the per-frame state machine runs its steps in another order (e.g. a request dispatched before its frame was validated, or a stream swept before its state was updated)", a, b, oka, okb))
+	}
+	// response: HEADERS encoded and queued before DATA
+	fr := p.decl("(*serverConn).finishRequest")
+	if fr == nil {
+		r.undecided("finishRequest", "?", "no longer resolves")
+		return
+	}
+	enc, wr, sd := -1, -1, -1
+	for i, s := range fr.Body.List {
+		// the HEADERS encode and queue must be unconditional statements
+		if es, ok := s.(*ast.ExprStmt); ok {
+			if c, ok := es.X.(*ast.CallExpr); ok {
+				switch p.calleeOf(c) {
+				case "fasthttpResponseHeaders":
+					enc = i
+				case "(*serverConn).write":
+					if wr < 0 {
+						wr = i
+					}
+				}
+			}
+		}
+		inspectCalls(s, func(c *ast.CallExpr) {
+			if p.calleeOf(c) == "(*serverConn).sendData" {
+				sd = i
+			}
+		})
+	}
+	r.check(enc >= 0 && enc < wr && wr < sd, "HEADERS before DATA", p.pos(fr.Pos()), "encode < queue HEADERS < sendData", "finishRequest no longer encodes and queues the response HEADERS frame before it starts sending DATA")
+}
